@@ -128,6 +128,11 @@ def nev(e, env):
         if fn == 'binom':
             return mpmath.binomial(args[0], args[1])
         if fn in FUNS and len(args) == 1:
+            if fn == 'exp' and abs(args[0]) > 10 ** 5:
+                # exp of an astronomically large argument makes mpmath compute log 2 to that many digits
+                if args[0] < 0:
+                    return mpf(0)
+                raise Undefined('exp-overflow')
             try:
                 return FUNS[fn](args[0])
             except Exception:
@@ -350,6 +355,146 @@ class ExprGen:
         return Fun(c, self.wide(d - 1))
 
 
+def limit_body(r):
+    """Bodies for limits at +oo: sums / differences of terms that tend to a constant from above or below at different
+    rates, under an operation for which the side of approach matters (inverse, log, negative power, exp of an inverse)."""
+    x = Var('x')
+
+    def decay():
+        c = Const(r.choice([1, 1, 2, 3, Fraction(1, 2)]))
+        k = r.random()
+        if k < 0.6:
+            p = r.choice([Const(1), Const(2), Const(3), Const(Fraction(1, 2)), Const(Fraction(3, 2))])
+            t = Op('/', c, x if p == Const(1) else Op('^', x, p))
+        elif k < 0.8:
+            t = Op('/', c, Op('+', Op('^', x, Const(r.choice([1, 2]))), Const(r.choice([1, 2]))))
+        elif k < 0.9:
+            t = Op('*', c, Fun('exp', Op('-', x)))
+        else:
+            t = Op('/', c, Fun('log', x))
+        return t
+    k = r.random()
+    if k < 0.55:
+        s_ = Op(r.choice(['-', '-', '+']), decay(), decay())
+    elif k < 0.7:
+        s_ = Op('-', Op('+', decay(), decay()), decay())
+    elif k < 0.8:
+        s_ = Op('-', decay())
+    else:
+        s_ = decay()
+    if r.random() < 0.25:
+        s_ = Op('+', Const(r.choice([0, 1, 2])), s_) if r.random() < 0.5 else Op('+', s_, Const(r.choice([1, 2])))
+    w = r.choice(['inv', 'inv', 'atan-inv', 'atan-inv', 'exp-neg-inv', 'exp-inv', 'log', 'pow', 'plain', 'logistic', 'atan-log'])
+    one = Const(1)
+    if w == 'inv':
+        return Op('/', one, s_), w
+    if w == 'atan-inv':
+        return Fun('atan', Op('/', one, s_)), w
+    if w == 'exp-neg-inv':
+        return Fun('exp', Op('-', Op('/', one, s_))), w
+    if w == 'exp-inv':
+        return Fun('exp', Op('/', one, s_)), w
+    if w == 'log':
+        return Fun('log', s_), w
+    if w == 'pow':
+        return Op('^', s_, Const(r.choice([-1, -2, -3]))), w
+    if w == 'logistic':
+        return Op('/', one, Op('+', one, Fun('exp', Op('/', one, s_)))), w
+    if w == 'atan-log':
+        return Fun('atan', Fun('log', s_)), w
+    return s_, w
+
+
+def numeric_limit_at_inf(body):
+    """('finite', value, error estimate) | ('inf', sign) | ('unclear',) from samples at 10^4, 10^6, 10^8, 10^10 (50 digits)."""
+    old = mp.dps
+    mp.dps = 50
+    try:
+        seq = []
+        for k in (4, 6, 8, 10):
+            try:
+                v = nev(body, {'x': mpf(10) ** k})
+            except (Undefined, ZeroDivisionError, ValueError, OverflowError):
+                return ('unclear',)
+            if isinstance(v, mpmath.mpc) or not mpmath.isfinite(v):
+                return ('unclear',)
+            seq.append(v)
+        d = [abs(seq[i + 1] - seq[i]) for i in range(3)]
+        if d[2] <= d[1] <= d[0] and d[2] <= mpf(10) ** -3 * (1 + abs(seq[3])) and (d[2] <= d[1] / 2 or d[1] < mpf(10) ** -25):
+            return ('finite', seq[3], 2 * d[2] + mpf(10) ** -30)
+        if all(v > 0 for v in seq) and seq[0] < seq[1] < seq[2] < seq[3] and seq[3] > 50 and seq[3] - seq[2] >= (seq[1] - seq[0]) / 4:
+            return ('inf', 1)
+        if all(v < 0 for v in seq) and seq[0] > seq[1] > seq[2] > seq[3] and seq[3] < -50 and seq[2] - seq[3] >= (seq[0] - seq[1]) / 4:
+            return ('inf', -1)
+        return ('unclear',)
+    finally:
+        mp.dps = old
+
+
+def limits_family(run, r, n):
+    """ReduceLimit on generated limits at +oo against the numerical behaviour of the body."""
+    ctx = Context()
+    stats = dict(generated=0, reduced=0, judged=0)
+    for _ in range(n):
+        body, w = limit_body(r)
+        lim = E.Limit('x', E.POS_INF, body)
+        stats['generated'] += 1
+        try:
+            res = with_timeout(10, lambda: rules.ReduceLimit().eval(lim, ctx))
+        except Alarm:
+            run.stat('limit_timeout')
+            continue
+        except RecursionError:
+            raise
+        except Exception as ex:
+            run.stat('limit_exc:%s:%s' % (w, type(ex).__name__))
+            continue
+        if any(t.is_limit() for t in subexprs(res)) or res.is_limit():
+            run.stat('limit_unreduced:' + w)
+            continue
+        stats['reduced'] += 1
+        try:
+            num = with_timeout(10, lambda: numeric_limit_at_inf(body))
+        except Alarm:
+            run.stat('limit_numeric_timeout')
+            mp.dps = 30
+            continue
+        verdict = 'unclear'
+        if res in (E.POS_INF, E.NEG_INF):
+            sgn = 1 if res == E.POS_INF else -1
+            if num[0] == 'inf':
+                verdict = 'equal' if num[1] == sgn else 'differ'
+            elif num[0] == 'finite':
+                verdict = 'differ'
+        else:
+            try:
+                mp.dps = 50
+                val = nev(res, {})
+            except (Undefined, ZeroDivisionError, ValueError, OverflowError):
+                val = None
+            finally:
+                mp.dps = 30
+            if val is not None and num[0] == 'finite':
+                gap = abs(val - num[1])
+                if gap <= 5 * num[2] + mpf(10) ** -9:
+                    verdict = 'equal'
+                elif gap > mpf(10) ** -2 * (1 + abs(val)) and gap > 100 * num[2]:
+                    verdict = 'differ'
+            elif val is not None and num[0] == 'inf':
+                verdict = 'differ'
+        run.stat('limit:%s:%s' % (w, verdict))
+        run.count(('limit', str(body)), nontrivial=(verdict == 'equal'))
+        if verdict != 'unclear':
+            stats['judged'] += 1
+        if verdict == 'differ':
+            run.violation('property', 'ReduceLimit rewrites LIM {x -> oo}. %s to %s, but the expression %s' % (
+                              body, res, ('tends to %s' % mpmath.nstr(num[1], 12)) if num[0] == 'finite' else ('diverges to %soo' % ('-' if num[1] < 0 else '+'))),
+                          dict(limit=str(lim), result=str(res), numeric=[str(x) for x in num], reproduce='rules.ReduceLimit().eval(parser.parse_expr(limit), Context())',
+                               samples='body at x = 10^4, 10^6, 10^8, 10^10 with 50 digits'),
+                          key='C19:limit:' + w)
+    return stats
+
+
 def check_deriv_numeric(run, e, d, where, pts, key):
     """d should be the derivative of e in x at the sample points where both are defined."""
     bad = []
@@ -505,6 +650,9 @@ def run_check(tier, seed):
             run.violation('property', 'normalize changes the value of %s (gives %s)' % (e, n1), dict(expr=str(e), normal_form=str(n1), points=diff),
                           key='C19:normalize-value')
         run.count(('normalize', str(e)), nontrivial=n_cmp > 0)
+
+    # ======== (3b) limits at infinity whose value depends on the side from which a sub-term approaches its limit
+    run.cov['search_limits'] = limits_family(run, r, 150 * scale)
 
     # ======== (4) recorded calculations: recompute every step, compare values
     files = sorted(glob.glob(os.path.join(REPO, 'integral', 'examples', '*.json')))
